@@ -1,5 +1,5 @@
 (* C09 — Session rules: no fill in a session without execution, whatever events are configured; dispatch of rounds. *)
-Require Import Pams.Prelude Pams.Match Pams.Market Pams.Sim Pams.SimLift Pams.SimInv Pams.SimProps.
+Require Import Pams.Prelude Pams.Match Pams.Market Pams.Sim Pams.SimLift Pams.SimInv Pams.SimProps Pams.SimConsult.
 Open Scope Z_scope.
 
 (* Every fill of every run lies in a matching round on its own market; that market was running when the round began; and
@@ -53,3 +53,27 @@ Theorem C09_collected_batches_nonempty : forall ags s cap n acc,
   Forall (fun b => b <> []) acc -> Forall (fun b => b <> []) (snd (collect s ags cap n acc)).
 Proof. exact collect_batches_wellformed. Qed.
 Print Assumptions C09_collected_batches_nonempty.
+
+(* within a step the normal agents that are asked for orders are a prefix of the runner's permuted list, in that order, each
+   once (asking stops when maxNormalOrders of them have produced orders, or the run fails); [asked s] is the sequence of agents
+   asked so far *)
+Theorem C09_normal_agents_asked_in_permuted_order_each_once : forall ags s cap n acc,
+  exists k, (k <= length ags)%nat /\ asked (fst (collect s ags cap n acc)) = asked s ++ map a_id (firstn k ags).
+Proof. exact collect_asks_a_prefix. Qed.
+Print Assumptions C09_normal_agents_asked_in_permuted_order_each_once.
+
+Theorem C09_nobody_asked_twice_by_one_collection : forall ags s cap n acc, NoDup (map a_id ags) ->
+  exists l, asked (fst (collect s ags cap n acc)) = asked s ++ l /\ NoDup l.
+Proof. exact collect_asks_each_at_most_once. Qed.
+Print Assumptions C09_nobody_asked_twice_by_one_collection.
+
+(* the same for the high-frequency agents after a batch; handling the orders in between asks nobody *)
+Theorem C09_high_frequency_agents_asked_in_permuted_order_each_once : forall ags s cap n,
+  exists k, (k <= length ags)%nat /\ asked (hft_phase s ags cap n) = asked s ++ map a_id (firstn k ags).
+Proof. exact hft_phase_asks_a_prefix. Qed.
+Print Assumptions C09_high_frequency_agents_asked_in_permuted_order_each_once.
+
+Theorem C09_handling_orders_asks_nobody : forall s r, asked (handle_request s r) = asked s.
+Proof. exact request_asks_nobody. Qed.
+Print Assumptions C09_handling_orders_asks_nobody.
+
